@@ -129,20 +129,15 @@ theorem encode_bytes_transcode (C : Codecs) (hci : CaseInsensitive C) (env : Env
     | cons c cs => simp [lowerName, resolve]
     | nil =>
       -- the resolved name is empty only if everything down to the default encoding is empty
-      unfold resolve at hr ⊢
-      simp only [lowerName, List.map_nil]
-      split at hr
-      · simp at hr
-      · split at hr
-        · simp at hr
-        · rename_i h2
-          split
-          · rename_i h3; exact absurd h3 (h2 _ _)
-          · exact hr
+      obtain ⟨sin, d⟩ := env
+      rcases inc with _ | _ | ⟨c, cs⟩ <;> rcases sin with _ | _ | ⟨c', cs'⟩ <;>
+        simp_all [resolve, lowerName]
   have hdec : safeDecode C env (.bytes b) (some (lowerName (resolve env inc))) p =
       safeDecode C env (.bytes b) inc p := by
-    simp only [safeDecode, hres, hci]
-  simp only [safeEncode, hb, hne, ne_eq, not_false_eq_true, and_self, if_true, hdec]
+    simp only [safeDecode, hres, hci (resolve env inc) p b]
+  simp only [safeEncode, hb, hne, ne_eq, not_false_eq_true, and_self, if_true]
+  rw [hdec]
+  cases safeDecode C env (.bytes b) inc p <;> rfl
 
 /-! ### to_utf8 -/
 
@@ -209,18 +204,22 @@ theorem real_caseInsensitive : CaseInsensitive real := by
   intro n p b
   simp [real, lemma_lookup_lower]
 
+deriving instance DecidableEq for Except
+
+/-- a locale for the examples: no `sys.stdin.encoding`, default encoding utf-8 -/
+def env0 : Env := ⟨none, "utf-8".toList⟩
+
 /-- non-vacuity: a concrete round trip through UTF-8 (2-, 3- and 4-byte forms) in mixed case,
     a transcoding latin-1 → utf-8, the UTF-8 fall-back, an untouched invalid byte string -/
 example :
-    let env : Env := ⟨none, "utf-8".toList⟩
-    safeEncode real env (.str ['é', '€', Char.ofNat 0x1F600]) none "UTF-8".toList .strict
+    safeEncode real env0 (.str ['é', '€', Char.ofNat 0x1F600]) none "UTF-8".toList .strict
       = .ok [0xC3, 0xA9, 0xE2, 0x82, 0xAC, 0xF0, 0x9F, 0x98, 0x80] ∧
-    safeDecode real env (.bytes [0xC3, 0xA9, 0xE2, 0x82, 0xAC, 0xF0, 0x9F, 0x98, 0x80])
+    safeDecode real env0 (.bytes [0xC3, 0xA9, 0xE2, 0x82, 0xAC, 0xF0, 0x9F, 0x98, 0x80])
       (some "Utf-8".toList) .strict = .ok ['é', '€', Char.ofNat 0x1F600] ∧
-    safeEncode real env (.bytes [0xE9]) (some "Latin-1".toList) "utf8".toList .strict = .ok [0xC3, 0xA9] ∧
-    safeDecode real env (.bytes [0xC3, 0xA9]) (some "ascii".toList) .strict = .ok ['é'] ∧
-    safeEncode real env (.bytes [0xFF]) (some "UTF-8".toList) "utf-8".toList .strict = .ok [0xFF] ∧
-    safeEncode real env (.str ['é']) none "ascii".toList .strict = .error .unicodeEncodeError := by
+    safeEncode real env0 (.bytes [0xE9]) (some "Latin-1".toList) "utf8".toList .strict = .ok [0xC3, 0xA9] ∧
+    safeDecode real env0 (.bytes [0xC3, 0xA9]) (some "ascii".toList) .strict = .ok ['é'] ∧
+    safeEncode real env0 (.bytes [0xFF]) (some "UTF-8".toList) "utf-8".toList .strict = .ok [0xFF] ∧
+    safeEncode real env0 (.str ['é']) none "ascii".toList .strict = .error .unicodeEncodeError := by
   decide +kernel
 
 /-! ### to_slug -/
@@ -258,8 +257,9 @@ theorem slug_idempotent (front : Text → Text) (hf : FrontOK front) (s : Text) 
     slugText front (slugText front s) = slugText front s := by
   have ha := lemma_pipe_alphabet _ (hf.ascii_out s)
   have hascii : IsAscii (slugText front s) := fun c hc => lemma_slugChar_ascii c (ha c hc)
-  show slugPipe (front (slugPipe (front s))) = slugPipe (front s)
-  rw [hf.id_on_ascii _ hascii]
+  have e := hf.id_on_ascii _ hascii
+  unfold slugText at e ⊢
+  rw [e]
   exact lemma_pipe_fix _ ha (lemma_pipe_good _)
 
 /-- the same for the function as called: whatever `to_slug` returned (from `str` or from bytes
@@ -291,9 +291,9 @@ theorem to_slug_alphabet (C : Codecs) (env : Env) (front : Text → Text) (hf : 
 
 /-- non-vacuity: slugs of bytes and text through the concrete table -/
 example :
-    toSlug real ⟨none, "utf-8".toList⟩ asciiFront (.bytes [0x41, 0x20, 0x20, 0x62, 0x21]) (some "ASCII".toList)
+    toSlug real env0 asciiFront (.bytes [0x41, 0x20, 0x20, 0x62, 0x21]) (some "ASCII".toList)
       .strict = .ok "a-b".toList ∧
-    toSlug real ⟨none, "utf-8".toList⟩ asciiFront (.str "a-b".toList) none .strict = .ok "a-b".toList := by
+    toSlug real env0 asciiFront (.str "a-b".toList) none .strict = .ok "a-b".toList := by
   decide +kernel
 
 end Oslo.C16
